@@ -120,6 +120,12 @@ func (u *Unmarshaler) fillMap(fieldType reflect.Type, value reflect.Value, mapVa
 		return errValueNotSettable
 	}
 
+	// fieldType 不一定是 map（如 []int 的元素收到 {"x":1}、[]struct 来自字符串、*map 字段）：
+	// 对其它 Kind 调用 Key() 会 panic，这里改为返回类型不匹配错误。
+	if fieldType.Kind() != reflect.Map {
+		return errTypeMismatch
+	}
+
 	fieldKeyType := fieldType.Key()
 	fieldElemType := fieldType.Elem()
 	targetValue, err := u.generateMap(fieldKeyType, fieldElemType, mapValue)
